@@ -51,6 +51,28 @@ import logging
 logging.getLogger("paramiko").addHandler(logging.NullHandler())
 logging.getLogger("paramiko").propagate = False
 
+DEBUG_CHANNEL = "paramiko.vfbench.debug"
+
+
+class _CountingHandler(logging.Handler):
+    """Swallows records; `records` shows the DEBUG channel really was live."""
+
+    records = 0
+
+    def emit(self, record):
+        _CountingHandler.records += 1
+
+
+_dbg = logging.getLogger(DEBUG_CHANNEL)
+_dbg.setLevel(logging.DEBUG)
+_dbg.propagate = False
+_dbg.addHandler(_CountingHandler())
+
+
+def debug_records():
+    return _CountingHandler.records
+
+
 T_NEWKEYS = 21
 T_AUTH_SUCCESS = 52
 RESERVED_TYPES = (T_NEWKEYS, T_AUTH_SUCCESS)
@@ -196,6 +218,9 @@ class MemSock:
         self.calls = None  # write ledger (list) when enabled
         self.chunk_limit = None
         self.yield_s = None
+        self.stall_every = None  # every Nth send() accepts 1 byte and sleeps stall_s
+        self.stall_s = 0.002
+        self.stalls = 0
         self.observer = None  # callable -> number of senders currently inside send_message
         self.recv_timeouts_at = []  # stream offsets at which recv raised socket.timeout / EAGAIN
 
@@ -249,11 +274,18 @@ class MemSock:
             n = max(1, min(n, int(self.accept(n))))
         if self.chunk_limit and n > self.chunk_limit:
             n = self.chunk_limit
+        stalled = False
+        if self.stall_every and (self.sends + 1) % self.stall_every == 0 and n > 1:
+            # a stalling socket: takes one byte of what it was offered, then sits for a while
+            n, stalled = 1, True
+            self.stalls += 1
         self.wire += data[:n]
         self.sends += 1
         if self.calls is not None:
             self.calls.append((threading.get_ident(), data, n, inflight))
-        if self.yield_s is not None:
+        if stalled:
+            time.sleep(self.stall_s)
+        elif self.yield_s is not None:
             time.sleep(self.yield_s)
         return n
 
@@ -411,10 +443,18 @@ def make_concurrent_tap(recorder, side):
             super().__init__(sock)
             self.inflight = 0
             self._cl = threading.Lock()
+            self._tl = threading.local()
+            self.build_order = []  # message of every _build_packet call, in call order
+
+        def _build_packet(self, payload):
+            # runs where the code under test computes the packet (sequence number / cipher stream / MAC follow)
+            self.build_order.append(getattr(self._tl, "msg", None))
+            return super()._build_packet(payload)
 
         def send_message(self, data):
             with self._cl:
                 self.inflight += 1
+            self._tl.msg = data.asbytes()
             try:
                 _P.send_message(self, data)  # the real method, straight
             finally:
@@ -527,8 +567,10 @@ class AsymTransport(paramiko.Transport):
 class Receiver:
     """A never-started Transport acting as the receiving peer."""
 
-    def __init__(self, spec, recorder=None, klog=None, packetizer_class=None, rekey_packets=None, rekey_bytes=None):
+    def __init__(self, spec, recorder=None, klog=None, packetizer_class=None, rekey_packets=None, rekey_bytes=None,
+                 hexdump=False):
         self.spec = spec
+        self.hexdump = hexdump
         self.needrekey_seen = 0
         self.split_headers_rekey_pending = 0
         self.sock = MemSock()
@@ -546,6 +588,10 @@ class Receiver:
         self.klog = klog
         if klog is not None:
             instrument(t, klog, "rx")
+        if hexdump:
+            # debugging configuration of the receiving side: DEBUG log channel + packet hexdumps (public API)
+            t.set_log_channel(DEBUG_CHANNEL)
+            t.set_hexdump(True)
         # scaled re-key thresholds (instance attributes, as C10 does): the receiver's own
         # need_rekey() flag goes up after a few packets and stays up (its outbound side never re-keys)
         if rekey_packets is not None:
@@ -738,9 +784,10 @@ class Bench:
         """Start offset of every packet plus the end of the stream."""
         return [s["start"] for s in self.sent] + [len(self.sock.wire)]
 
-    def receiver(self, recorder=None, klog=None, packetizer_class=None, rekey_packets=None, rekey_bytes=None):
+    def receiver(self, recorder=None, klog=None, packetizer_class=None, rekey_packets=None, rekey_bytes=None,
+                 hexdump=False):
         return Receiver(self.spec, recorder=recorder, klog=klog, packetizer_class=packetizer_class,
-                        rekey_packets=rekey_packets, rekey_bytes=rekey_bytes)
+                        rekey_packets=rekey_packets, rekey_bytes=rekey_bytes, hexdump=hexdump)
 
     def installed_out(self):
         """Per key epoch, what the sender really installed for its outbound
